@@ -8,6 +8,7 @@ CONSTANTS
   CanCancel <- MCCanCancel
   CanClose = TRUE
   BroadcastUnderLock = TRUE
+  Variant = "none"
 INVARIANTS TypeOK P_C15_Bounded WaitSetsSound
 PROPERTIES P_C15_Refines P_C15_Results P_C15_CancelledPopReturns P_C15_CloseReleasesAll P_C15_BlockedPushResumes P_C15_BlockedPopResumes
 CHECK_DEADLOCK FALSE
